@@ -315,10 +315,20 @@ fn generate_ui(helper: &CommandHelper, args: &GenerateUiArgs) -> Result<(), Comm
     };
     let ctx = BuildContext::prepare(&type_map, file_name_rules, dynamic_binding_handling)
         .map_err(anyhow::Error::from)?;
+    let mut diagnostic_generated = false;
     for p in &args.sources {
-        generate_ui_file(&ctx, &docs_cache, p, args.output_directory.as_deref())?;
+        match generate_ui_file(&ctx, &docs_cache, p, args.output_directory.as_deref()) {
+            Ok(()) => {}
+            // process the remaining sources so their outputs don't depend on the order
+            Err(CommandError::DiagnosticGenerated) => diagnostic_generated = true,
+            Err(e) => return Err(e),
+        }
     }
-    Ok(())
+    if diagnostic_generated {
+        Err(CommandError::DiagnosticGenerated)
+    } else {
+        Ok(())
+    }
 }
 
 fn generate_ui_file(
